@@ -53,13 +53,28 @@ fn main() {
                     std::process::exit(2);
                 }
             };
-            std::process::exit(runner::run_check(&spec, tier));
+            // a panic of the harness itself (generator, runner) is a harness error (exit 2), never a verdict
+            let code = match std::panic::catch_unwind(std::panic::AssertUnwindSafe(|| runner::run_check(&spec, tier))) {
+                Ok(c) => c,
+                Err(_) => {
+                    println!("harness error: the simulator itself panicked (see stderr); no verdict");
+                    2
+                }
+            };
+            std::process::exit(code);
         }
         "replay" => {
             if args.len() < 3 {
                 usage();
             }
-            std::process::exit(runner::replay(&args[2]));
+            let code = match std::panic::catch_unwind(std::panic::AssertUnwindSafe(|| runner::replay(&args[2]))) {
+                Ok(c) => c,
+                Err(_) => {
+                    println!("harness error: the simulator itself panicked during replay (see stderr); no verdict");
+                    2
+                }
+            };
+            std::process::exit(code);
         }
         "gen" => {
             // print the scenario of one run (debugging aid; pure function of seed and index)
